@@ -155,6 +155,13 @@ EqShapeTrees(Ns) ==
   IN  {Bin("AND", Bin("IMPLIES", p, q), Bin("IMPLIES", r, s)) : p \in D, q \in D, r \in D, s \in D}
 
 \* comparison / arithmetic / aggregate constraints over the names Ns (UVL level)
+\* long chains of one associative operator (n-ary rules of the exchange formats): n literals over the
+\* names in turn, negated on every second round, nested to the left
+ChainLit(ns, i) == LET v == Var(ns[((i - 1) % Len(ns)) + 1])
+                   IN  IF ((i - 1) \div Len(ns)) % 2 = 1 THEN Un("NOT", v) ELSE v
+RECURSIVE ChainT(_, _, _)
+ChainT(op, ns, n) == IF n = 1 THEN ChainLit(ns, 1) ELSE Bin(op, ChainT(op, ns, n - 1), ChainLit(ns, n))
+
 ArithTrees(Ns) ==
   LET vars  == {Var(n) : n \in Ns}
       atoms == vars \cup {Lit("INT", "3"), Lit("NUM", "2.5")}
